@@ -778,6 +778,10 @@ class Engine(object):
         # change what the contract talks about
         self.params0 = dict(frame.vars)
         self.yields = PList([]) if c.yields is not None else None
+        if isinstance(c.yields, FoldSpec):
+            # what the generator yields is abstracted by its length, last element and the contract's folds
+            z0 = dict((k, z3.IntVal(0)) for k in c.yields.folds)
+            self.yields = PList(FoldAbs(c.yields, z3.IntVal(0), z3.IntVal(0), None, z0))
         for g in c.hints.get('ghost_init', ()):        # ghost variables defined on every path (also early returns)
             self.exec_ghost(g, frame)
         for i, r in enumerate(c.requires):
@@ -796,7 +800,7 @@ class Engine(object):
             self.check_raise(exc, frame)
             return
         if self.yields is not None:
-            result = PGen(self.yields.val)
+            result = PGen(self.yields.val) if not isinstance(self.yields.val, FoldAbs) else PList(self.yields.val)
         self.cover('%s.return' % c.funcname)
         post = Frame(parent=frame, vars=dict(self.params0, result=result))
         self.use_lemmas('post', post)
@@ -922,7 +926,7 @@ class Engine(object):
         if isinstance(self.yields.val, list):
             self.yields.val.append(v)
             return
-        self.list_append(self.yields, v, self.c.yields)
+        self.list_append(self.yields, v, None if isinstance(self.c.yields, FoldSpec) else self.c.yields)
 
     def st_Pass(self, s, frame):
         pass
@@ -1210,7 +1214,7 @@ class Engine(object):
             frame.store(name, v)
         for name in sorted(names_mutated):
             if name == '__yields__':
-                obj, ty = self.yields, ListOf(self.c.yields)
+                obj, ty = self.yields, (self.c.yields if isinstance(self.c.yields, FoldSpec) else ListOf(self.c.yields))
             else:
                 if name in names_assigned:
                     continue
@@ -1436,7 +1440,7 @@ class Engine(object):
         name = e.id
         if name == '_out' and getattr(self, 'in_spec', False) and self.yields is not None:
             # a value, not the live list: ghost snapshots (out0 = _out) must not alias what is yielded later
-            return PList(self.yields.val if isinstance(self.yields.val, SSeq) else list(self.yields.val))
+            return PList(self.yields.val if isinstance(self.yields.val, (SSeq, FoldAbs)) else list(self.yields.val))
         if frame.has(name):
             return frame.lookup(name)
         if name in self.c.env:
@@ -2699,6 +2703,10 @@ class Engine(object):
                 return SStr(z3.FreshConst(z3.StringSort(), 'resub'))
             raise Unsupported('re.Pattern.%s on symbolic text' % name)
         if isinstance(recv, str) and name == 'join':
+            if callable(self.c.env.get('__str_join_hook__')):
+                key = 'model:str.join (contract-supplied)'
+                self.trusted_used[key] = self.trusted_used.get(key, 0) + 1
+                return self.c.env['__str_join_hook__'](self, recv, args[0])
             return self.str_join(recv, args[0], node)
         if isinstance(recv, (str, SStr)) and name in PURE_STR_METHODS:
             return self.str_method(recv, name, args, kwargs, node)
@@ -2805,6 +2813,10 @@ class Engine(object):
         if isinstance(seq, SEncMap) and sep == '':
             self.trusted_used['model:str.join'] = self.trusted_used.get('model:str.join', 0) + 1
             return SEnc(seq.t, seq.alpha)
+        if callable(self.c.env.get('__join_symbolic__')):
+            key = 'model:str.join (contract-supplied)'
+            self.trusted_used[key] = self.trusted_used.get(key, 0) + 1
+            return self.c.env['__join_symbolic__'](self, sep, seq)
         if isinstance(seq, SSeq):
             key = 'model:str.join over an unknown list (over-approximated: any string)'
             self.trusted_used[key] = self.trusted_used.get(key, 0) + 1
@@ -2938,6 +2950,10 @@ class Engine(object):
             return PSymSet(self.set_array(args[0]))
         if fn is set and len(args) == 1 and not kwargs and isinstance(args[0], PSet):
             return PSet(args[0].val)
+        if fn is set and len(args) == 1 and not kwargs and isinstance(args[0], (PList, tuple, list, set, frozenset)):
+            items = args[0].val if isinstance(args[0], PList) else list(args[0])
+            if isinstance(items, list) and not any(is_sym(x) or isinstance(x, (PList, PDict, PObj)) for x in items):
+                return PSet(items)
         if isinstance(fn, type) and issubclass(fn, BaseException):
             return PExc(fn, args)
         if (isinstance(fn, type) and type(fn) is type and fn.__module__.split('.')[0] == self.module.__name__.split('.')[0]
